@@ -393,7 +393,9 @@ theorem getOrDefault_eq (w : World) (c n : Str) :
   unfold getOrDefault World.cache
   split
   · rfl
-  · cases (w.lims c).caches n <;> rfl
+  · cases (w.lims c).caches n with
+    | none => rfl
+    | some x => simp [loadLimiter_eq]
 
 /-- Arrival: the model never panics, its answer is what the judge demands, and the relation is kept. -/
 theorem acquire_step {w : World} {σ : SState} (h : Rel w σ) (c n : Str) (tb : Bool) :
@@ -803,7 +805,7 @@ theorem release_step {w : World} {σ : SState} (h : Rel w σ) (i : Nat) : Rel (r
 
 theorem putCache_self (w : World) (c n : Str) (x : Option Cache) (h : w.cache c n = x) : putCache w c n x = w := by
   unfold putCache World.setLim Limiter.setCache
-  have : (fun d => if d = c then { spec := (w.lims c).spec, caches := fun m => if m = n then x else (w.lims c).caches m } else w.lims d) = w.lims := by
+  have : (fun d => if d = c then { spec := (w.lims c).spec, caches := fun m => if m = n then x else (w.lims c).caches m, mode := (w.lims c).mode } else w.lims d) = w.lims := by
     funext d
     by_cases hd : d = c
     · subst hd
@@ -1430,17 +1432,17 @@ theorem syncSchemas_rel {w : World} {σ : SState} (h : RelCore w σ) (c : Str) (
 
 /-- Names are removed (the same ones on both sides). -/
 theorem rel_delete {w : World} {σ : SState} (h : RelCore w σ) (c : Str) (P : Str → Prop) [DecidablePred P]
-    (sp : List Schema) (L : Str → List Schema) :
-    RelCore (w.setLim c { spec := sp, caches := fun n => if P n then none else (w.lims c).caches n })
+    (sp : List Schema) (md : Str) (L : Str → List Schema) :
+    RelCore (w.setLim c { spec := sp, mode := md, caches := fun n => if P n then none else (w.lims c).caches n })
       { σ with last := L, entries := fun c' n' => if c' = c ∧ P n' then none else σ.entries c' n' } := by
-  have hcache : ∀ c' n', (w.setLim c { spec := sp, caches := fun n => if P n then none else (w.lims c).caches n }).cache c' n' =
+  have hcache : ∀ c' n', (w.setLim c { spec := sp, mode := md, caches := fun n => if P n then none else (w.lims c).caches n }).cache c' n' =
       if c' = c ∧ P n' then none else w.cache c' n' := by
     intro c' n'
     unfold World.cache World.setLim
     by_cases hc : c' = c
     · subst hc; by_cases hp : P n' <;> simp [hp]
     · simp [hc]
-  have hc1 : ∀ c' n' cache', (w.setLim c { spec := sp, caches := fun n => if P n then none else (w.lims c).caches n }).cache c' n' = some cache' →
+  have hc1 : ∀ c' n' cache', (w.setLim c { spec := sp, mode := md, caches := fun n => if P n then none else (w.lims c).caches n }).cache c' n' = some cache' →
       ¬ (c' = c ∧ P n') ∧ w.cache c' n' = some cache' := by
     intro c' n' cache' hh
     rw [hcache] at hh
@@ -1514,7 +1516,7 @@ theorem sync_step {w : World} {σ : SState} (h : Rel w σ) (c : Str) (schemas : 
               · exact absurd hh hn
       rw [hfun] at hs
       subst hs
-      have hdel := rel_delete h1 c (fun n => n ∉ names schemas) schemas
+      have hdel := rel_delete h1 c (fun n => n ∉ names schemas) schemas (w1.lims c).mode
         (fun d => if d = c then schemas else (applySchemas c σ schemas).last d)
       refine ⟨hdel, ?_, ?_⟩
       · intro d
@@ -1525,7 +1527,7 @@ theorem sync_step {w : World} {σ : SState} (h : Rel w σ) (c : Str) (schemas : 
         · simp only [hd, if_false]
           rw [h2 d, h.last d, applySchemas_last]
       · intro c' n' hsome
-        have hcache : (w1.setLim c { spec := schemas, caches := fun n => if n ∉ names schemas then none else (w1.lims c).caches n }).cache c' n' =
+        have hcache : (w1.setLim c { spec := schemas, mode := (w1.lims c).mode, caches := fun n => if n ∉ names schemas then none else (w1.lims c).caches n }).cache c' n' =
             if c' = c ∧ n' ∉ names schemas then none else w1.cache c' n' := by
           unfold World.cache World.setLim
           by_cases hc : c' = c
@@ -1548,6 +1550,47 @@ theorem sync_step {w : World} {σ : SState} (h : Rel w σ) (c : Str) (schemas : 
           exact h.dom2 c' n' hsome
 
 
+/-! ### a mode switch (`ResetLimiter`) keeps everything -/
+
+theorem resetLimiter_cache (w : World) (c m : Str) (c' n' : Str) : (resetLimiter w c m).cache c' n' = w.cache c' n' := by
+  unfold resetLimiter World.cache World.setLim
+  by_cases hc : c' = c
+  · subst hc; simp
+  · simp [hc]
+
+theorem resetLimiter_spec (w : World) (c m : Str) (d : Str) : ((resetLimiter w c m).lims d).spec = (w.lims d).spec := by
+  unfold resetLimiter World.setLim
+  by_cases hd : d = c
+  · subst hd; simp
+  · simp [hd]
+
+theorem reset_rel {w : World} {σ : SState} (h : Rel w σ) (c m : Str) : Rel (resetLimiter w c m) σ := by
+  have hc := h.core
+  have hcache := resetLimiter_cache w c m
+  have hheap : (resetLimiter w c m).heap = w.heap := rfl
+  have hnext : (resetLimiter w c m).next = w.next := rfl
+  have hreqs : (resetLimiter w c m).reqs = w.reqs := rfl
+  refine ⟨⟨?_, ?_, ?_, ?_, ?_, ?_, ?_, ?_, ?_, ?_, ?_, ?_, hc.nodup⟩, ?_, ?_⟩
+  · intro c' n'; rw [hcache]; exact hc.dom c' n'
+  · intro c' n' cache' e' h1 h2; rw [hcache] at h1; exact hc.cfg c' n' cache' e' h1 h2
+  · intro c' n' cache' h1; rw [hcache] at h1; exact hc.name c' n' cache' h1
+  · intro c' n' cache' id' h1 h2; rw [hcache] at h1; rw [hheap, hnext]; exact hc.curOk c' n' cache' id' h1 h2
+  · intro c' n' cache' h1 h2; rw [hcache] at h1; exact hc.curNone c' n' cache' h1 h2
+  · intro c1 n1 c2 n2 cache1 cache2 id' h1 h2 h3 h4; rw [hcache] at h1 h2
+    exact hc.inj c1 n1 c2 n2 cache1 cache2 id' h1 h2 h3 h4
+  · rw [hreqs]; exact hc.reqsLen
+  · intro i r h1; rw [hreqs] at h1; exact hc.reqsEq i r h1
+  · intro i r id' h1 h2; rw [hreqs] at h1; rw [hnext]; exact hc.reqObj i r id' h1 h2
+  · intro i r id' c' n' cache' h1 h2 h3 h4; rw [hreqs] at h1; rw [hcache] at h3
+    exact hc.own i r id' c' n' cache' h1 h2 h3 h4
+  · intro c' n' cache' e' id' cnt' h1 h2 h3 h4; rw [hcache] at h1; rw [hheap] at h4
+    exact hc.count c' n' cache' e' id' cnt' h1 h2 h3 h4
+  · intro c' n' cache' e' i h1 h2; rw [hcache] at h1
+    show _ ↔ HoldsL (resetLimiter w c m).reqs i cache'.cur
+    rw [hreqs]; exact hc.infl c' n' cache' e' i h1 h2
+  · intro d; rw [resetLimiter_spec]; exact h.last d
+  · intro c' n' h1; rw [hcache] at h1; rw [resetLimiter_spec]; exact h.dom2 c' n' h1
+
 /-! ### every op, every history -/
 
 theorem step_rel {w : World} {σ : SState} (h : Rel w σ) (op : Op) :
@@ -1569,6 +1612,9 @@ theorem step_rel {w : World} {σ : SState} (h : Rel w σ) (op : Op) :
   | release i =>
     simp only [KG.Model.LocalLimiter.step]
     exact ⟨by simp [check], fun _ => release_step h i⟩
+  | reset c m =>
+    simp only [KG.Model.LocalLimiter.step]
+    exact ⟨by simp [check], fun _ => by simp only [specStep]; exact reset_rel h c m⟩
 
 theorem judgeFrom_run {w : World} {σ : SState} (h : Rel w σ) (k : Nat) (ops : List Op) :
     judgeFrom σ k ops (run w ops) = none := by
@@ -1852,6 +1898,9 @@ theorem isolation_step {w : World} {σ : SState} (h : Rel w σ) (op : Op) (c n :
       obtain ⟨cache0, hcache0, hcur0⟩ := getOrDefault_some hg0
       obtain ⟨e1, e2⟩ := h.core.inj c0 n0 c n cache0 cache id hcache0 hcache hcur0 hcur
       exact hna ⟨e1, e2⟩
+  | reset c0 m =>
+    simp only [KG.Model.LocalLimiter.step]
+    exact answer_congr _ w c n tb (getOrDefault_congr _ w c n (resetLimiter_cache w c0 m c n)) (fun _ _ => rfl)
   | release i =>
     simp only [KG.Model.LocalLimiter.step]
     obtain ⟨h1, h2⟩ := release_frame w i
